@@ -4,7 +4,14 @@
 cd "$(dirname "$0")/.." || exit 2
 for d in seeded/mut_*/ seeded/fix_*/; do
   id=$(basename "$d")
-  prop=$(python3 -c "import json;print(json.load(open('$d/meta.json'))['breaks_property'])")
+  # the checks expected to catch it: the property it breaks, or (mut_46, mut_75) the other
+  # properties' checks recorded under caught_by
+  prop=$(python3 -c "
+import json
+m=json.load(open('$d/meta.json'))
+cb=m.get('caught_by',{})
+ks=[k for k,v in cb.items() if v and not str(v[0]).startswith('not caught')] if isinstance(cb,dict) else []
+print(' '.join(ks) if ks else m['breaks_property'])")
   res=$(tools/try_mutation.sh "$d/patch.diff" $prop 2>&1 | tail -1)
   echo "$id -> $res"
 done
